@@ -118,6 +118,78 @@ PROPS["C33"] = {
     "level_note": "Trusted: Verus/Z3, Kani/CBMC; the carrier contracts of AtomicUsize (atomicity, CAS success semantics); the composition argument over steps is pen and paper.",
 }
 
+# ------------------------------------------------------------------ C12
+SPL = "distributed::splits"
+PROPS["C12"] = {
+    "files": ["verus/c12_lpt.vrs", "kani/splits.rs"],
+    "level": "proof",
+    "explanation": "The greedy loop of assign_lpt (outer loop over the processing order, inner least-loaded scan, the three updates) is copied from the real source and verified by Verus for every "
+                   "split multiset, order and node count: each index is owned exactly as often as it occurs in the order (a partition when the order is a permutation), per-node byte and row "
+                   "totals are the sums of what each node owns, totals are conserved, the chosen node is a least-loaded one, and max load <= total/N + largest split (list-scheduling bound). "
+                   "Determinism: the loop is a function of (splits, order, nodes) with no hidden state.",
+    "kani": [],
+    "verus": [
+        V("c12_lpt", "assign_lpt (greedy loop: `for idx in order` with the inner `for n in 1..nodes`)",
+          "partition by counting (cnt_all(per_node) == cnt(order) for every index), node_bytes[k] == sum bytes, node_rows[k] == sum rows over per_node[k], conservation of both totals, "
+          "least-loaded choice, N*node_bytes[k] <= total + N*maxb; no overflow under total bytes <= u64::MAX and total rows <= i64::MAX"),
+    ],
+    "trusted_base": ["Graham 1969: (4/3 - 1/(3N)) * OPT for LPT order is cited, not machine-checked; the list-scheduling bound total/N + max is proved"],
+    "not_under_contract": ["the two sorts (processing order, per-node canonical order) and the Assignment glue are only covered by the bounded whole-function harness"],
+    "technique": "Verus loop invariants on the greedy loop extracted mechanically from assign_lpt; bounded Kani harness on the whole function for the cut sorts and glue",
+    "level_text": "Deductive and unbounded for the partition, sums, conservation and list-scheduling bound (all split multisets, all node counts); the LPT ratio itself is the cited theorem about the algorithm the code is proved to be.",
+    "level_note": "Trusted: Verus/Z3; rewrites R4 (vec! initialisers become parameters), R5 (indexed iteration), R1; Graham's bound cited.",
+}
+
+# ------------------------------------------------------------------ C13
+PROPS["C13"] = {
+    "files": ["verus/c13_read_split.vrs", "verus/c11_pass2.vrs", "verus/c12_lpt.vrs"],
+    "level": "proof",
+    "explanation": "By composition of contracts: (i) the splits of a table tile every non-empty row group exactly (C11 unit c11_pass2), (ii) every split is owned by exactly one node (C12 unit c12_lpt), "
+                   "(iii) read_split's range check and RowSelection construction (copied verbatim, arrow-rs RowSelector as a carrier with its documented meaning) return Err iff the split exceeds the "
+                   "row group and otherwise read EXACTLY rows [row_offset, row_offset+num_rows) - for a whole-row-group split by building no selection at all. The union over nodes and splits is then "
+                   "every row exactly once (pen and paper).",
+    "kani": [],
+    "verus": [
+        V("c13_read_split", "ShardedParquetTable::read_split (range check + selector region), Split::is_whole_row_group",
+          "Err iff row_offset+num_rows > rg_rows; Ok(builder) ==> for every row of the row group: read <==> row_offset <= row < row_offset+num_rows; is_whole_row_group == (row_offset==0 && num_rows==rows)"),
+        V("c11_pass2", "enumerate_parquet (pass 2)", "every row group tiled exactly (see C11)"),
+        V("c12_lpt", "assign_lpt (greedy loop)", "every split owned by exactly one node (see C12)"),
+    ],
+    "trusted_base": [
+        "arrow-rs reads exactly the rows a RowSelection selects (skip/select run lengths; rows after the last run not selected); a builder without a selection reads the whole row group",
+        "cached_reader_builder returns the file's footer",
+        "composition over nodes/splits is pen and paper (DESIGN.md section 5, C13)",
+    ],
+    "not_under_contract": ["projection, the decoder RowFilter and statistics pruning inside read_split (C05 decides pruning)", "the async scan wrapper and rayon fan-out in scan_impl"],
+    "technique": "Verus on the verbatim range-check / RowSelection region of read_split with arrow-rs selectors as a carrier type, composed with the C11 tiling and C12 partition contracts",
+    "level_text": "Deductive and unbounded for the three facts the repository contributes (tiling, single ownership, exact row range per split); their composition into 'every row exactly once' is a short pen-and-paper argument.",
+    "level_note": "Trusted: Verus/Z3; carrier contracts for arrow-rs RowSelector/RowSelection/reader builder; R7 (error payload replaced by unit, condition verbatim); Parquet I/O itself is outside any verifier.",
+}
+
+# ------------------------------------------------------------------ C25
+PROPS["C25"] = {
+    "files": ["verus/c25_limit.vrs"],
+    "level": "proof",
+    "explanation": "LIMIT/OFFSET arithmetic: LimitState::take_from and satisfied are copied verbatim and verified by Verus with RecordBatch as a carrier (num_rows, slice). With ghost `consumed` = input rows "
+                   "seen so far, the counters satisfy skipped = min(consumed, skip), fetched = clamp(consumed - skip, 0, fetch), and the emitted batch is EXACTLY input rows "
+                   "[max(consumed,skip), min(consumed+n, skip+fetch)) - so by induction over batches the output is rows skip+1..skip+fetch of the input order for every batch split, "
+                   "including fetch = 0, skip beyond the input and fetch = None.",
+    "kani": [],
+    "verus": [
+        V("c25_limit", "LimitState::{take_from, satisfied}",
+          "invariant preserved; skip/fetch unchanged; emitted rows == input rows [max(consumed,skip), min(consumed+n, skip+fetch)); None iff that range is empty; slice preconditions met; no overflow"),
+    ],
+    "trusted_base": [
+        "carrier contracts on arrow RecordBatch (R6): num_rows() == number of rows; slice(o,l) is rows[o..o+l] and requires o+l <= num_rows",
+        "R1: LimitState reduced to skip/fetch/skipped/fetched (operator plumbing fields dropped); ghost parameter `consumed` added to take_from's verified signature (spec-only)",
+        "the stream::unfold loop that calls take_from once per batch, partitions in index order, is structural and not verified",
+    ],
+    "not_under_contract": ["SortExec / lexsort (Arrow's sort is the dependency's)", "Sort+Limit fusion in planner.rs", "NULLS FIRST/DESC closure inside streaming_k_way_merge (needs run files)"],
+    "technique": "Verus on the verbatim LimitState methods with RecordBatch as a carrier type and a ghost consumed-rows counter",
+    "level_text": "Deductive and unbounded for LIMIT/OFFSET: every skip/fetch pair, every batch size and every split of the input into batches.",
+    "level_note": "Trusted: Verus/Z3; two carrier contracts on arrow RecordBatch; the async unfold loop and Arrow's sort kernels are outside.",
+}
+
 
 def claimed():
     return sorted(PROPS)
